@@ -293,7 +293,17 @@ def R_closure(toks, arg):
             cnt += 1
             if cnt == n:
                 b = pe + 1
-                if out[b].text == "{" or out[b].text == "-": raise ScanError("R-closure: closure already has a block or return type")
+                if out[b].text == "-": raise ScanError("R-closure: closure already has a return type")
+                if out[b].text == "{":
+                    # the body is a block already: only the return type is added
+                    tyt, _ = tokenize(ty)
+                    for x in tyt: x.pre = ""
+                    new = _mk(["-", ">", "("], out[b], " ") + _mk(["cret", ":"], out[b], "")
+                    new[1].pre = ""; new[3].pre = ""
+                    tyt[0].pre = " "
+                    new += tyt + _mk([")"], out[b], "")
+                    out[b:b] = new
+                    return out, 1
                 j = b; d = 0
                 while j < len(out):
                     u = out[j]
@@ -551,4 +561,74 @@ def R_closurearg(toks):
     for i in range(1, len(out) - 1):
         if out[i].text == "_" and out[i-1].text == "|" and out[i+1].text == "|":
             out[i] = Tok("ident", "_e", out[i].pre, line=out[i].line); n += 1
+    return out, n
+
+
+def R_closurerefpat(toks):
+    """a closure whose single parameter is the reference pattern `&x` — `|&x| e` — becomes `|__cp_x| { let x = *__cp_x; e }`
+    (same meaning in Rust; Verus 0.2026.09.13 accepts only variables as closure parameters)."""
+    out = list(toks); n = 0; i = 0
+    while i + 3 < len(out):
+        if out[i].text == "|" and out[i+1].text == "&" and out[i+2].kind == "ident" and out[i+3].text == "|" and out[i-1].text in ("(", ",", "="):
+            x = out[i+2].text
+            b = i + 4
+            j = b
+            while j < len(out):
+                u = out[j]
+                if u.kind == "punct" and u.text in OPEN: j = match_close(out, j) + 1; continue
+                if u.text in (")", "]", "}", ",", ";"): break
+                j += 1
+            body = out[b:j]
+            new = ([out[i]] + _mk(["__cp_" + x], out[i+2], "") + [out[i+3]] + _mk(["{", "let", x, "=", "*", "__cp_" + x, ";"], out[b], " ")
+                   + body + _mk(["}"], out[j-1], " "))
+            out[i:j] = new
+            n += 1; i += len(new); continue
+        i += 1
+    return out, n
+
+
+def R_slicepat(toks):
+    """the slice pattern `[LIT, x @ ..]` (first element a literal, the rest bound to x) against an identifier scrutinee E:
+         `if let [LIT, x @ ..] = E {`            becomes  `if !E.is_empty() && E[0] == LIT { let x = &E[1..];`
+         `let [LIT, x @ ..] = E else { B };`     becomes  `let x = if !E.is_empty() && E[0] == LIT { &E[1..] } else { B };`
+    (what the pattern means: it matches iff E is non-empty and its first element is LIT, and binds x to the rest; Verus
+    0.2026.09.13 does not support slice patterns)."""
+    out = list(toks); n = 0; i = 0
+    def pat_at(k):
+        # [ LIT , x @ .. ]  ->  (lit token, x name, index after ']')
+        if out[k].text != "[": return None
+        e = match_close(out, k)
+        inner = [t.text for t in out[k+1:e]]
+        if len(inner) == 6 and inner[1] == "," and inner[3] == "@" and inner[4] == "." and inner[5] == ".":
+            return out[k+1], inner[2], e + 1
+        if len(inner) == 5 and inner[1] == "," and inner[3] == "@" and inner[4] == "..":
+            return out[k+1], inner[2], e + 1
+        return None
+    def glue(ts):
+        # two-character operators are two tokens: no blank between them
+        glued = set()
+        for k in range(1, len(ts)):
+            a, b = ts[k-1], ts[k]
+            if (a.text, b.text) in (("&", "&"), ("=", "="), (".", ".")) and (k - 1) not in glued:
+                b.pre = ""; glued.add(k)
+        return ts
+    while i < len(out):
+        t = out[i]
+        if t.text == "let" and i + 1 < len(out):
+            is_if = i > 0 and out[i-1].text == "if"
+            p = pat_at(i + 1)
+            if p and out[p[2]].text == "=" and out[p[2]+1].kind == "ident":
+                lit, x, after = p
+                E = out[after+1].text
+                cond = ["!", E, ".", "is_empty", "(", ")", "&", "&", E, "[", "0", "]", "=", "=", lit.text]
+                if is_if and out[after+2].text == "{":
+                    new = glue(_mk(cond, t, " ")) + [out[after+2]] + glue(_mk(["let", x, "=", "&", E, "[", "1", ".", ".", "]", ";"], out[after+2], " "))
+                    out[i:after+3] = new; n += 1; i += len(new); continue
+                if (not is_if) and out[after+2].text == "else" and out[after+3].text == "{":
+                    be = match_close(out, after + 3)
+                    if out[be+1].text == ";":
+                        blk = out[after+3:be+1]
+                        new = ([t] + _mk([x, "=", "if"], t, " ") + glue(_mk(cond, t, " ")) + glue(_mk(["{", "&", E, "[", "1", ".", ".", "]", "}", "else"], t, " ")) + blk)
+                        out[i:be+1] = new; n += 1; i += len(new); continue
+        i += 1
     return out, n
